@@ -7,7 +7,8 @@ open Finset BigOperators Matrix
 
 set_option linter.unusedSectionVars false
 
-namespace GT
+namespace GT.Reflect
+open GT.Targets
 
 section field
 variable {K : Type*} [Field K] {n : ℕ}
@@ -89,4 +90,4 @@ theorem reflApply_normal (d : Fin (n + 1) → K) (hd : mink d d ≠ 0) :
   funext i; unfold reflApply; field_simp; ring
 
 end field
-end GT
+end GT.Reflect
